@@ -864,3 +864,68 @@ package quic
 //@   panics when h.activeSequenceNumber != 0
 //@   ensures [replaced] h.activeConnectionID.l == newConnID.l
 //@   modifies h.activeConnectionID.*
+
+// ---------------- send stream: new data never exceeds the peer's credit (C04) ----------------
+//@ func (s *SendStream) signalWrite
+//@   trusted non-blocking send on a signalling channel (channels are not modelled)
+//@   modifies nothing
+
+//@ func (s *SendStream) reliableOffset
+//@   props C04
+//@   ensures result == ite(s.supportsResetStreamAt, s.reliableSize, 0)
+//@   modifies nothing
+
+//@ func (s *SendStream) canBufferStreamFrame
+//@   props C04
+//@   requires s.nextFrame == nil || len(s.nextFrame.Data) <= 1099511627776
+//@   modifies nothing
+
+//@ func (s *SendStream) getDataForWriting
+//@   props C04
+//@   requires f != nil && 0 <= maxBytes && min(len(s.dataForWriting), maxBytes) <= cap(f.Data) && (s.nextFrame == nil || len(s.nextFrame.Data) <= 1099511627776)
+//@   ensures [exactly-what-fits] len(f.Data) == min(old(len(s.dataForWriting)), maxBytes)
+//@   ensures [rest-kept] len(s.dataForWriting) == old(len(s.dataForWriting)) - len(f.Data)
+//@   ensures [same-buffer] samearray(f.Data, old(f.Data))
+//@   modifies f.Data, f.Data[*], s.dataForWriting
+
+//@ func (s *SendStream) popNewStreamFrameWithoutBuffer
+//@   props C04
+//@   arith bv
+//@   requires f != nil && f.valid() && 0 <= maxBytes && maxBytes <= 1452 && 0 <= sendWindow && cap(f.Data) == 1452 && (s.nextFrame == nil || len(s.nextFrame.Data) <= 1099511627776)
+//@   ensures [within-window] len(f.Data) <= sendWindow || len(f.Data) == old(len(f.Data))
+//@   ensures [rest-kept] len(s.dataForWriting) <= old(len(s.dataForWriting))
+//@   modifies f.Data, f.Data[*], s.dataForWriting
+
+//@ func (s *SendStream) popNewStreamFrame
+//@   props C04
+//@   arith bv
+//@   requires 0 <= maxBytes && maxBytes <= 1452 && 0 <= maxDataLen && 0 <= s.streamID && s.streamID <= 4611686018427387903 && 0 <= s.writeOffset && s.writeOffset <= 4611686018427387903 - 1099511627776
+//@   requires s.nextFrame == nil || (s.nextFrame.valid() && len(s.nextFrame.Data) <= 1452)
+//@   ensures [within-window] implies(result0 != nil, len(result0.Data) <= maxDataLen)
+//@   modifies s.nextFrame, s.dataForWriting, elems(uint8), heap(wire.StreamFrame.Data), heap(wire.StreamFrame.StreamID), heap(wire.StreamFrame.Offset), heap(wire.StreamFrame.DataLenPresent), heap(wire.StreamFrame.Fin), heap(wire.StreamFrame.fromPool)
+
+//@ func (s *SendStream) maybeGetRetransmission
+//@   props C04
+//@   arith bv
+//@   requires len(s.retransmissionQueue) >= 1 && s.retransmissionQueue[0] != nil && s.retransmissionQueue[0].valid() && 0 <= maxBytes && maxBytes <= 1452
+//@   requires s.retransmissionQueue[0].Offset + len(s.retransmissionQueue[0].Data) <= 4611686018427387903 && len(s.retransmissionQueue[0].Data) <= 1452
+//@   ensures [progress-or-more] result0 != nil || result1
+//@   modifies s.retransmissionQueue, elems(uint8), heap(wire.StreamFrame.Data), heap(wire.StreamFrame.Offset), heap(wire.StreamFrame.fromPool)
+
+//@ func (s *SendStream) popNewOrRetransmittedStreamFrame
+//@   props C04
+//@   arith bv
+//@   let fc = dyn(s.flowController, *flowcontrol.streamFlowController)
+//@   let conn = dyn(fc.connection, *flowcontrol.connectionFlowController)
+//@   requires s.flowController != nil && typeis(s.flowController, *flowcontrol.streamFlowController) && fc.sInv()
+//@   requires 0 <= maxBytes && maxBytes <= 1452 && 0 <= s.streamID && s.streamID <= 4611686018427387903 && 0 <= s.writeOffset && s.writeOffset <= 4611686018427387903 - 1099511627776
+//@   requires s.nextFrame == nil || (s.nextFrame.valid() && len(s.nextFrame.Data) <= 1452)
+//@   requires implies(len(s.retransmissionQueue) >= 1, s.retransmissionQueue[0] != nil && s.retransmissionQueue[0].valid() && s.retransmissionQueue[0].Offset + len(s.retransmissionQueue[0].Data) <= 4611686018427387903 && len(s.retransmissionQueue[0].Data) <= 1452)
+//@   maxpaths 20000
+//@   requires fc.bytesSent <= 4611686018427387903 - 1099511627776 && conn.bytesSent <= 4611686018427387903 - 1099511627776
+//@   let window = old(min(ite(fc.bytesSent > fc.sendWindow, 0, fc.sendWindow - fc.bytesSent), ite(conn.bytesSent > conn.sendWindow, 0, conn.sendWindow - conn.bytesSent)))
+//@   ensures [new-data-within-credit] fc.bytesSent - old(fc.bytesSent) <= window && fc.bytesSent >= old(fc.bytesSent)
+//@   ensures [conn-credit-too] conn.bytesSent - old(conn.bytesSent) == fc.bytesSent - old(fc.bytesSent)
+//@   ensures [offset-advances-with-credit] s.writeOffset - old(s.writeOffset) == fc.bytesSent - old(fc.bytesSent)
+//@   ensures [nothing-after-shutdown] implies(old(s.shutdownErr) != nil, result0 == nil && result1 == nil && !hasMoreData && fc.bytesSent == old(fc.bytesSent))
+//@   modifies s.nextFrame, s.dataForWriting, s.writeOffset, s.finSent, s.retransmissionQueue, fc.bytesSent, conn.bytesSent, fc.lastBlockedAt, elems(uint8), heap(wire.StreamFrame.Data), heap(wire.StreamFrame.StreamID), heap(wire.StreamFrame.Offset), heap(wire.StreamFrame.DataLenPresent), heap(wire.StreamFrame.Fin), heap(wire.StreamFrame.fromPool)
